@@ -262,6 +262,26 @@ def read_add_mask(fn_node=None):
     return {"stmts": out, "result": r.arrs["dataset.msk"][0], "source": ast.unparse(fn)}
 
 
+def mask_cmp():
+    """Fallback of gen_imgtools.extract_mask: the operator of the single comparison of the RAW mask raster with 0"""
+    t = read_add_mask()
+
+    def flat(stmts):
+        for st in stmts:
+            if st[0] == "if":
+                yield from flat(st[1])
+                yield from flat(st[2])
+            else:
+                yield st
+
+    sts = list(flat(t["stmts"]))
+    raws = {st[1] for st in sts if st[0] == "arr" and st[2][0] == "readmask" and not st[2][1]}
+    cmps = [st for st in sts if st[0] == "mask"]
+    if len(cmps) != 1 or cmps[0][3] not in raws or cmps[0][4] or cmps[0][5] != 0 or cmps[0][2] not in ("ne", "gt"):
+        _bad("add_mask", "translated, but not one `!= 0` / `> 0` comparison of the raw mask raster")
+    return {"maskCmp": cmps[0][2]}
+
+
 def _il(e):
     if e[0] == "lit":
         return f"({e[1]})"
